@@ -45,7 +45,7 @@ Definition init_max_ttl (cfg_secs : Z) : Z :=
   if d <=? 0 then default_max_cache_ttl else d.
 
 (* ------------------------------------------------------------------ dnsutils.GetMinimalTTL *)
-Definition is_opt (r : rr) : bool := (r_type r =? TypeOPT)%N.
+Definition cp_is_opt (r : rr) : bool := (r_type r =? TypeOPT)%N.
 
 (* the three sections in the order the Go loops visit them *)
 Definition rrs (m : msg) : list rr := m_an m ++ m_ns m ++ m_ar m.
@@ -54,7 +54,7 @@ Fixpoint min_ttl_loop (l : list rr) (minTTL : N) (hasRecord : bool) : N * bool :
   match l with
   | [] => (minTTL, hasRecord)
   | r :: l' =>
-    if is_opt r then min_ttl_loop l' minTTL hasRecord
+    if cp_is_opt r then min_ttl_loop l' minTTL hasRecord
     else min_ttl_loop l' (if (r_ttl r <? minTTL)%N then r_ttl r else minTTL) true
   end.
 
@@ -93,7 +93,7 @@ Definition set_ttl (r : rr) (t : N) : rr :=
 
 (* if hdr.TTL > delta { hdr.TTL -= delta } else { hdr.TTL = 1 } ; OPT skipped *)
 Definition sub_rr (delta : N) (r : rr) : rr :=
-  if is_opt r then r
+  if cp_is_opt r then r
   else if (delta <? r_ttl r)%N then set_ttl r (r_ttl r - delta)%N else set_ttl r 1%N.
 
 Definition subtract_ttl (delta : N) (m : msg) : msg :=
@@ -111,7 +111,7 @@ Definition otter_expiration (clk : N) (d : Z) : N := ((clk + otter_ttl d) mod 42
 
 Notation key := N (only parsing).
 
-Record entry := mkEntry {
+Record cp_entry := mkEntry {
   e_stored : Z;        (* cacheEntry.storedTime *)
   e_expire : Z;        (* cacheEntry.expireTime *)
   e_msg : msg;         (* cacheEntry.v (decoded) *)
@@ -120,28 +120,28 @@ Record entry := mkEntry {
 }.
 
 (* HasExpired: n.expiration <= unixtime.Now() *)
-Definition has_expired (clk : N) (e : entry) : bool := (e_exp e <=? clk)%N.
+Definition has_expired (clk : N) (e : cp_entry) : bool := (e_exp e <=? clk)%N.
 
 (* the backend: an association list (at most one binding per key is kept by [put]) and the ticker clock *)
-Record state := mkState { st_clk : N; st_map : list (key * entry) }.
+Record cp_state := mkState { st_clk : N; st_map : list (key * cp_entry) }.
 
-Definition init_state (clk : N) : state := mkState clk [].
+Definition init_state (clk : N) : cp_state := mkState clk [].
 
-Fixpoint find (k : key) (m : list (key * entry)) : option entry :=
+Fixpoint find (k : key) (m : list (key * cp_entry)) : option cp_entry :=
   match m with
   | [] => None
   | (k', e) :: m' => if (k =? k')%N then Some e else find k m'
   end.
 
-Fixpoint remove (k : key) (m : list (key * entry)) : list (key * entry) :=
+Fixpoint remove (k : key) (m : list (key * cp_entry)) : list (key * cp_entry) :=
   match m with
   | [] => []
   | (k', e) :: m' => if (k =? k')%N then remove k m' else (k', e) :: remove k m'
   end.
 
-Definition put (k : key) (e : entry) (m : list (key * entry)) : list (key * entry) := (k, e) :: remove k m.
+Definition put (k : key) (e : cp_entry) (m : list (key * cp_entry)) : list (key * cp_entry) := (k, e) :: remove k m.
 
-(* what one step shows to the caller / observer *)
+(* what one cp_step shows to the caller / observer *)
 Inductive out :=
 | OTick
 | OEvicted
@@ -153,7 +153,7 @@ Inductive out :=
 
 (* MemoryCache.Store(k, storedTime, expireTime, v, setNX) evaluated when the wall clock shows [until_now]
    (ttl := time.Until(expireTime)) and the otter clock shows st_clk *)
-Definition mem_store (st : state) (k : key) (stored expire until_now : Z) (v : msg) (setNX : bool) : state * bool :=
+Definition mem_store (st : cp_state) (k : key) (stored expire until_now : Z) (v : msg) (setNX : bool) : cp_state * bool :=
   let e := mkEntry stored expire v setNX (otter_expiration (st_clk st) (expire - until_now)) in
   if setNX then
     match find k (st_map st) with
@@ -163,8 +163,8 @@ Definition mem_store (st : state) (k : key) (stored expire until_now : Z) (v : m
   else (mkState (st_clk st) (put k e (st_map st)), true).
 
 (* cacheCtl.Store at wall time [t]; the backend call happens [eps] >= 0 later *)
-Definition cachectl_store (maximumTtl : Z) (st : state) (t eps : Z) (k : key) (resp : option msg) (packok : bool)
-  : state * out :=
+Definition cachectl_store (maximumTtl : Z) (st : cp_state) (t eps : Z) (k : key) (resp : option msg) (packok : bool)
+  : cp_state * out :=
   match resp with
   | None => (st, OSkipped)
   | Some m =>
@@ -178,7 +178,7 @@ Definition cachectl_store (maximumTtl : Z) (st : state) (t eps : Z) (k : key) (r
   end.
 
 (* cacheCtl.Get (memory backend) at wall time [t] *)
-Definition cachectl_get (st : state) (t : Z) (k : key) : state * out :=
+Definition cachectl_get (st : cp_state) (t : Z) (k : key) : cp_state * out :=
   match find k (st_map st) with
   | None => (st, OMiss)
   | Some e =>
@@ -196,7 +196,7 @@ Inductive event :=
 | EvCollect (k : key)                                         (* otter's cleanup goroutine removes the node if it has expired *)
 | EvEvict (k : key).                                          (* size eviction: any key, any time *)
 
-Definition step (maximumTtl : Z) (st : state) (ev : event) : state * out :=
+Definition cp_step (maximumTtl : Z) (st : cp_state) (ev : event) : cp_state * out :=
   match ev with
   | EvTick c => (mkState c (st_map st), OTick)
   | EvStore t eps k resp packok => cachectl_store maximumTtl st t eps k resp packok
@@ -209,11 +209,11 @@ Definition step (maximumTtl : Z) (st : state) (ev : event) : state * out :=
   | EvEvict k => (mkState (st_clk st) (remove k (st_map st)), OEvicted)
   end.
 
-Fixpoint run (maximumTtl : Z) (st : state) (evs : list event) : state * list out :=
+Fixpoint run (maximumTtl : Z) (st : cp_state) (evs : list event) : cp_state * list out :=
   match evs with
   | [] => (st, [])
   | ev :: evs' =>
-    let '(st1, o) := step maximumTtl st ev in
+    let '(st1, o) := cp_step maximumTtl st ev in
     let '(st2, os) := run maximumTtl st1 evs' in
     (st2, o :: os)
   end.
@@ -259,14 +259,14 @@ Fixpoint aged_ok (delta : N) (orig got : list rr) : bool :=
   match orig, got with
   | [], [] => true
   | r :: o', r' :: g' =>
-    (if is_opt r then (r_ttl r' =? r_ttl r)%N else (r_ttl r' =? aged delta (r_ttl r))%N) && aged_ok delta o' g'
+    (if cp_is_opt r then (r_ttl r' =? r_ttl r)%N else (r_ttl r' =? aged delta (r_ttl r))%N) && aged_ok delta o' g'
   | _, _ => false
   end.
 
 (* ------------------------------------------------------------------ specification vocabulary (no proofs) *)
 (* one record of an aged message: OPT untouched; otherwise only the TTL changes, to max 1 (ttl - delta) *)
 Definition rr_aged (delta : N) (r r' : rr) : Prop :=
-  if is_opt r then r' = r else r' = set_ttl r (N.max 1 (r_ttl r - delta)).
+  if cp_is_opt r then r' = r else r' = set_ttl r (N.max 1 (r_ttl r - delta)).
 
 (* Assumptions about one event, given the backend clock reading [clk] it meets (times in ns from any fixed origin):
      Store: the backend call happens 0 <= eps < 1 s after time.Now(); the clock is not ahead of the wall clock;
@@ -280,10 +280,10 @@ Definition ev_ok (lag mx : Z) (clk : N) (ev : event) : Prop :=
   | _ => True
   end.
 
-Fixpoint hist_ok (lag mx : Z) (st : state) (evs : list event) : Prop :=
+Fixpoint hist_ok (lag mx : Z) (st : cp_state) (evs : list event) : Prop :=
   match evs with
   | [] => True
-  | ev :: evs' => ev_ok lag mx (st_clk st) ev /\ hist_ok lag mx (fst (step mx st ev)) evs'
+  | ev :: evs' => ev_ok lag mx (st_clk st) ev /\ hist_ok lag mx (fst (cp_step mx st ev)) evs'
   end.
 
 (* boolean versions (for closed examples and for the driver) *)
@@ -296,21 +296,21 @@ Definition ev_okb (lag mx : Z) (clk : N) (ev : event) : bool :=
   | _ => true
   end.
 
-Fixpoint hist_okb (lag mx : Z) (st : state) (evs : list event) : bool :=
+Fixpoint hist_okb (lag mx : Z) (st : cp_state) (evs : list event) : bool :=
   match evs with
   | [] => true
-  | ev :: evs' => ev_okb lag mx (st_clk st) ev && hist_okb lag mx (fst (step mx st ev)) evs'
+  | ev :: evs' => ev_okb lag mx (st_clk st) ev && hist_okb lag mx (fst (cp_step mx st ev)) evs'
   end.
 
-(* a generic "every step of every history" combinator *)
-Fixpoint steps_sat (P : state -> event -> state -> out -> Prop) (mx : Z) (st : state) (evs : list event) : Prop :=
+(* a generic "every cp_step of every history" combinator *)
+Fixpoint steps_sat (P : cp_state -> event -> cp_state -> out -> Prop) (mx : Z) (st : cp_state) (evs : list event) : Prop :=
   match evs with
   | [] => True
-  | ev :: evs' => P st ev (fst (step mx st ev)) (snd (step mx st ev)) /\ steps_sat P mx (fst (step mx st ev)) evs'
+  | ev :: evs' => P st ev (fst (cp_step mx st ev)) (snd (cp_step mx st ev)) /\ steps_sat P mx (fst (cp_step mx st ev)) evs'
   end.
 
-(* what a step may do to the binding of a key *)
-Definition neg_keeps (st : state) (ev : event) (st1 : state) (o : out) : Prop :=
+(* what a cp_step may do to the binding of a key *)
+Definition neg_keeps (st : cp_state) (ev : event) (st1 : cp_state) (o : out) : Prop :=
   match ev with
   | EvStore t eps k (Some m) pk =>
       negative m = true -> forall e, find k (st_map st) = Some e ->
